@@ -10,6 +10,8 @@ import AnySyncModel.Tree.Loader
   add <root> <lastIter> | <change>… | <change>… | <awaited:waiting>… → `ok <mode> added=<ids sorted> iter=<ids> heads=<ids sorted> last=<id>`
                                                    (attached changes in any order, root first; then the batch, in order)
   reduce <root> <possibleRoots> <change>…       → `ok <root> <ids>`
+  rebuild <rootId> <change>…                    → `ok <root> <ids> heads=<ids sorted> last=<id>` | `err empty`
+                                                   (the whole stored sequence in stored order; build from <rootId> on)
   store <ids> <ids>                             → `ok <ids>`          (stored sequence, iteration)
   common <ids> <ids>                            → `ok <id>` | `err nocommon`
   respond <max> <ids> <schange>…                → `ok <ids>;<heads sorted> <ids>;<heads sorted> …` | `ok -`
@@ -77,6 +79,16 @@ def step (line : String) : String :=
       | some r' => s!"ok {r'} {showNats (iter r' res.1.att)}"
       | none => "bad-op"
     | _, _, _ => "bad-op"
+  | "rebuild" :: root :: rest =>
+    match root.toNat?, rest.mapM parseChange with
+    | some r, some stored =>
+      let t := buildFromStorage stored r
+      match t.root with
+      | some r' =>
+        let it := iter r' t.att
+        s!"ok {r'} {showNats it} heads={showNats (sortIds (headsOf t.att it))} last={t.lastIter}"
+      | none => "err empty"
+    | _, _ => "bad-op"
   | ["store", st, it] =>
     match natList? st, natList? it with
     | some s, some i => s!"ok {showNats (storeInsert s i)}"
